@@ -89,8 +89,9 @@ def heartbeat_timeline(h):
                 if not waiting:
                     h.check(z3.ULT(t - last_act, ivl), "c19.no-ping-although-ivl-elapsed")
         else:
-            if kind == 1:                               # data frame (1 byte)
-                frame = [0x00, 0x01, h.byte(f"d{ev}")]
+            if kind == 1:                               # data frame (1 byte), possibly a MORE frame of a multipart message
+                more = h.choose(2, f"more{ev}")
+                frame = [more, 0x01, h.byte(f"d{ev}")]
             elif kind == 2:                             # PING with context
                 n = ctx_lens[h.choose(len(ctx_lens), f"ctxlen{ev}")]
                 ctx = h.bytes(f"ctx{ev}", n)
@@ -115,7 +116,7 @@ def heartbeat_timeline(h):
             if kind == 3:
                 waiting, traffic_since_ping = False, False
             if kind == 1:
-                h.check(any(a.vname == "DeliverMessage" for a in acts), "c19.data-not-delivered")
+                h.check(any(a.vname == "DeliverMessage" for a in acts) == (more == 0), "c19.data-delivery-unexpected")
         h.check(efield(h, eng, "waiting_for_pong") == waiting, "c19.waiting-flag-mismatch")
 
 
@@ -150,7 +151,7 @@ def replay_heartbeat_timeline(model, params, role):
             ti += 1
             lines.append(f"tick {off + 5000}")
         elif kind == 1:
-            lines.append("feed 000161")
+            lines.append("feed 0%d0161" % dict(map(tuple, ch)).get(f"more{i}", 0))
         elif kind == 2:
             ctx = model.get(f"ctx{i}", "")
             body = b"\x04PING\x00\x00" + bytes.fromhex(ctx)
